@@ -39,26 +39,44 @@ def sup_parsed_context_built_only_in_next_impl(P):
     sites = [s for s in q.aggregates_of(P, "okane_core::parse::adaptor::ParsedContext") if q.not_test(s[0])]
     allowed = ("okane_core::parse::adaptor::ParsedIter::next_impl",
                "okane_core::parse::adaptor::ParseOptions::parse_single")
-    bad = [s[0].key for s in sites if s[0].key not in allowed]
+    bad = [s[0].key for s in sites if s[0].key.split("::{closure")[0] not in allowed]
     if bad or not sites:
         return False, "ParsedContext built in %s" % (bad or "nowhere")
+
+    def spanned_in(b):
+        def spanned(r):
+            if r.kind != "call":
+                return False
+            if "WithSpan" in (r.name or ""):
+                return True
+            if r.name == "winnow::Parser::parse" and r.site is not None:
+                return q.all_roots(b, b.term(r.site)["args"][0],
+                                   lambda r2: r2.kind == "call" and r2.name == "winnow::Parser::with_span")
+            return False
+        return spanned
     for b, bb, j, rv in sites:
         for f in rv["fields"]:
             if f["name"] == "span":
                 rs = prov(b, f["op"])
-                def spanned(r, b=b):
-                    if r.kind != "call":
-                        return False
-                    if "WithSpan" in (r.name or ""):
-                        return True
-                    if r.name == "winnow::Parser::parse" and r.site is not None:
-                        return q.all_roots(b, b.term(r.site)["args"][0],
-                                           lambda r2: r2.kind == "call" and r2.name == "winnow::Parser::with_span")
-                    return False
-                ok = rs and all(spanned(r) for r in rs)
+                if b.is_closure:
+                    # `.map(|(entry, span)| ..)` on the result of with_span().parse(): the item is the closure's argument
+                    ok = bool(rs) and all(r.kind == "param" for r in rs)
+                    par = P.bodies.get(b.parent)
+                    used = False
+                    if ok and par is not None:
+                        for pbb, pt in par.calls():
+                            if (callee(pt) or "").rsplit("::", 1)[-1] != "map" or len(pt["args"]) != 2:
+                                continue
+                            if any(r.kind in ("agg", "closure") and str(r.name).replace("closure:", "") == b.key for r in prov(par, pt["args"][1])):
+                                used = True
+                                rs0 = prov(par, pt["args"][0])
+                                ok = ok and bool(rs0) and all(spanned_in(par)(r) for r in rs0)
+                    ok = ok and used
+                else:
+                    ok = rs and all(spanned_in(b)(r) for r in rs)
                 if not ok:
                     return False, "span does not come from with_span: %s" % mir.prov_strs(b, f["op"])
-    return True, "built only in next_impl from a with_span range"
+    return True, "built only in next_impl / parse_single from a with_span range"
 
 
 def sup_compute_line_number_callers(P):
@@ -297,45 +315,99 @@ def sup_rates_index(P):
     return True, "rates[partition_point(rates) - 1]"
 
 
+SHORT_CIRCUIT_CONSUMERS = ("try_for_each", "try_fold", "next", "find", "find_map", "any", "all", "position")
+LAZY_ADAPTERS = ("map", "map_err", "into_iter", "by_ref", "enumerate", "peekable", "inspect", "fuse", "take", "take_while",
+                 "map_while", "scan", "zip", "chain")
+
+
 def sup_parsed_iter_loop_leaves_on_err(P):
-    keys = ["okane_core::format::FormatOptions::format", "okane_core::load::Loader::load_impl",
-            "okane_core::report::price_db::PriceRepositoryBuilder::load_price_db"]
-    for k in keys:
-        b = P.body(k)
-        loops = b.loops()
-        hit = False
-        for h, blks in loops.items():
-            for bb in blks:
-                t = b.term(bb)
-                if t["k"] == "call" and (callee(t) or "").startswith("<okane_core::parse::adaptor::ParsedIter") \
-                        and (callee(t) or "").endswith("::next"):
-                    hit = True
-                    # the item is consumed by `?`: Try::branch, Break arm leaves the loop
-                    ok = False
-                    for bb2 in blks:
-                        t2 = b.term(bb2)
-                        if t2["k"] == "call" and (callee_def(t2) or "").endswith("Try::branch"):
-                            def from_next(r, b=b, t=t):
-                                if r.kind != "call":
-                                    return False
-                                if r.name == callee(t):
-                                    return True
-                                if r.name == "std::result::Result::map_err" and r.site is not None:
-                                    return q.all_roots(b, b.term(r.site)["args"][0],
-                                                       lambda r2: r2.kind == "call" and r2.name == callee(t))
+    """ParsedIter::next keeps returning the same Err once the parser failed; every consumer of a ParsedIter must
+    therefore stop at the first Err item: a loop that leaves through `?` / return on Err, or a std consumer that
+    short-circuits (try_for_each, try_fold, collect into a Result, ...)."""
+    nloops = nconsumers = 0
+    for b in sorted(P.bodies.values(), key=lambda b: b.key):
+        if not q.not_test(b) or b.crate not in ("okane_core", "okane-core", "okane"):
+            pass
+        for bb, t in b.calls():
+            cn = callee(t) or ""
+            if not t["args"] or t["args"][0].get("k") not in ("copy", "move"):
+                continue
+            a0ty = str(b.local_ty(t["args"][0]["place"]["l"]))
+            if "parse::adaptor::ParsedIter<" not in a0ty:
+                continue
+            last = cn.rsplit("::", 1)[-1].split("<")[0]
+            if b.key.startswith("<okane_core::parse::adaptor::ParsedIter"):
+                continue
+            if last == "next" and cn.startswith("<okane_core::parse::adaptor::ParsedIter"):
+                loops = [blks for h, blks in b.loops().items() if bb in blks]
+                if not loops:
+                    nconsumers += 1
+                    continue        # a single item is taken
+                blks = min(loops, key=len)
+                nloops += 1
+                ok = False
+                for bb2 in blks:
+                    t2 = b.term(bb2)
+                    if t2["k"] == "call" and (callee_def(t2) or "").endswith("Try::branch"):
+                        def from_next(r, b=b, t=t):
+                            if r.kind != "call":
                                 return False
-                            if q.all_roots(b, t2["args"][0], from_next):
-                                nxt = t2["target"]
-                                ds = mir.describe_switch(b, nxt)
-                                if ds and ds[0] == "variant":
-                                    for tb, labs in ds[2].items():
-                                        if "Break" in labs and tb not in blks:
-                                            ok = True
+                            if r.name == callee(t):
+                                return True
+                            if r.name == "std::result::Result::map_err" and r.site is not None:
+                                return q.all_roots(b, b.term(r.site)["args"][0],
+                                                   lambda r2: r2.kind == "call" and r2.name == callee(t))
+                            return False
+                        if q.all_roots(b, t2["args"][0], from_next):
+                            ds = mir.describe_switch(b, t2["target"])
+                            if ds and ds[0] == "variant":
+                                for tb, labs in ds[2].items():
+                                    if "Break" in labs and tb not in blks:
+                                        ok = True
+                if not ok:
+                    # match item { Err(e) => return / break, .. }: the Err arm never comes back to the loop header
+                    for bb2 in blks:
+                        ds = mir.describe_switch(b, bb2)
+                        if ds and ds[0] == "variant" and any(r.kind == "call" and r.name == callee(t) for r in ds[1]):
+                            for tb, labs in ds[2].items():
+                                if "Err" in labs and bb not in b.reach_from(tb):
+                                    ok = True
+                if not ok:
+                    return False, "%s: Err item does not leave the loop at %s" % (b.key, b.loc(bb))
+                continue
+            if last in LAZY_ADAPTERS:
+                continue            # the adapted iterator still has the ParsedIter in its type: its consumer is judged
+            if last == "collect":
+                dty = str(b.local_ty(t["dest"]["l"]))
+                if dty.startswith(("std::result::Result<", "core::result::Result<")):
+                    nconsumers += 1
+                    continue
+                return False, "%s collects a ParsedIter into %s (does not stop at the first Err)" % (b.key, dty[:60])
+            if last in SHORT_CIRCUIT_CONSUMERS:
+                nconsumers += 1
+                if last in ("try_for_each", "try_fold"):
+                    # the closure must hand the Err item on: its argument reaches a `?`
+                    ok = False
+                    for a in t["args"][1:]:
+                        for r in prov(b, a):
+                            if r.kind in ("closure", "agg") and str(r.name).startswith(("closure:", "")):
+                                ck = str(r.name).replace("closure:", "")
+                                cb = P.bodies.get(ck)
+                                if cb is None:
+                                    continue
+                                for bb3, t3 in cb.calls():
+                                    if (callee_def(t3) or "").endswith("Try::branch") and q.all_roots(
+                                            cb, t3["args"][0], lambda r3: r3.kind == "param" or (r3.kind == "call" and r3.name == "std::result::Result::map_err")):
+                                        ok = True
                     if not ok:
-                        return False, "%s: Err item does not leave the loop" % k
-        if not hit:
-            return False, "%s: ParsedIter loop not found" % k
-    return True, "all three ParsedIter loops leave on the first Err"
+                        return False, "%s: the %s closure does not propagate the Err item" % (b.key, last)
+                continue
+            if cn.startswith(("std::mem::drop", "core::mem::drop")) or last in ("drop", "drop_in_place", "size_hint", "clone"):
+                continue
+            return False, "%s passes a ParsedIter to %s, which does not stop at the first Err" % (b.key, cn[-60:])
+    if nloops + nconsumers < 3:
+        return False, "expected at least three ParsedIter consumers, found %d" % (nloops + nconsumers)
+    return True, "%d ParsedIter loops leave on the first Err, %d short-circuiting consumers" % (nloops, nconsumers)
 
 
 def sup_from_values_callers(P):
@@ -351,52 +423,75 @@ def sup_from_values_callers(P):
 
 
 def sup_dijkstra(P):
-    b = P.body("okane_core::report::price_db::NaivePriceRepository::compute_price_table")
+    """the queue only grows when the stored distance of the node is absent or strictly worse than the new one:
+    inside the relaxation loop, after a successful `stored <= new` comparison the push is unreachable within the
+    same iteration, and the push is preceded by a lookup of the node in the distance map"""
+    from analysis import inline
+    key = "okane_core::report::price_db::NaivePriceRepository::compute_price_table"
+    b = P.body(key)
+    if not getattr(b, "inlined_callees", None):
+        b = inline.normalized(P, key)
     loops = b.loops()
     pushes = [(bb, t) for bb, t in mir.call_sites(b, ["std::collections::BinaryHeap::push"])
               if any(bb in blks for blks in loops.values())]
     if len(pushes) != 1:
         return False, "expected one push inside the loop, found %d" % len(pushes)
-    bb, t = pushes[0]
-    flag = None
-    for a in mir.guards_at(b, bb):
-        if a.kind == "bool" and a.label == (True,):
-            rs = a.subject
-            if rs and all(r.kind == "const" and str(r.name) in ("true", "false") for r in rs):
-                flag = a
-    if flag is None:
-        return False, "push is not guarded by a boolean 'updated' flag"
-    # every `flag = false` assignment lies under a <= comparison of the stored distance
-    sw = b.term(flag.bb)["discr"]
-    l = sw["place"]["l"]
-    # walk back through Not / copies to the user variable
-    seen = set()
-    stack = [l]
-    users = set()
-    while stack:
-        x = stack.pop()
-        if x in seen:
+    pbb, pt = pushes[0]
+    header, blks = min(((h, bl) for h, bl in loops.items() if pbb in bl), key=lambda x: len(x[1]))
+
+    def stored(o):
+        for r in prov(b, o):
+            n = str(r.name)
+            if r.kind == "call" and ("HashMap" in n or "hash_map" in n or "Entry" in n or "BTreeMap" in n) and \
+                    n.rsplit("::", 1)[-1] in ("get", "get_mut", "entry", "insert"):
+                return True
+        return False
+    want = {"std::cmp::PartialOrd::le": (0, True), "std::cmp::PartialOrd::ge": (1, True),
+            "std::cmp::PartialOrd::lt": (1, False), "std::cmp::PartialOrd::gt": (0, False)}
+    found = 0
+    for bb in sorted(blks):
+        t = b.term(bb)
+        if t["k"] != "call" or callee_def(t) not in want or len(t["args"]) != 2:
             continue
-        seen.add(x)
-        for d in b.defs().get(x, []):
-            if d[0] == "assign" and d[4]["k"] in ("use", "unop"):
-                o = d[4].get("op") or d[4].get("x")
-                if o.get("k") in ("copy", "move"):
-                    stack.append(o["place"]["l"])
-                elif o.get("k") == "const":
-                    users.add((x, d[1], o.get("repr")))
-    falses = [(x, dbb) for (x, dbb, rep) in users if rep == "false"]
-    trues = [(x, dbb) for (x, dbb, rep) in users if rep == "true"]
-    if not falses or not trues:
-        return False, "flag is not assigned both constants"
-    for x, dbb in falses:
-        ok = False
-        for cn, lab, ct in q.guard_calls(b, dbb):
-            if callee_def(ct) in ("std::cmp::PartialOrd::le", "std::cmp::PartialOrd::lt") and lab is True:
-                ok = True
-        if not ok:
-            return False, "`updated = false` is not under a stored <= new comparison"
-    return True, "queue.push only when the stored distance was strictly improved"
+        si, lab = want[callee_def(t)]
+        if not stored(t["args"][si]) or stored(t["args"][1 - si]):
+            continue
+        # where does the comparison result go?
+        hit = False
+        for sb in sorted(blks):
+            ds = mir.describe_switch(b, sb)
+            if ds and ds[0] == "call" and ds[1][2] == bb:
+                for tb, labs in ds[2].items():
+                    if lab in labs:
+                        hit = True
+                        if pbb in b.reach_from(tb, without_blocks=(header,)):
+                            return False, "the push is reachable in the same iteration after `stored <= new` held (%s)" % b.loc(bb)
+        if hit:
+            found += 1
+    if not found:
+        return False, "no `stored distance <= new distance` comparison decides the push"
+    look = [bb for bb, t in b.calls() if bb in blks and (callee(t) or "").rsplit("::", 1)[-1] in ("get", "entry", "get_mut")
+            and "Map" in (callee(t) or "")]
+    if not any(b.must_pass_block(pbb, l) for l in look):
+        return False, "the push is not preceded by a lookup of the node's stored distance"
+    return True, "queue.push only when the stored distance is absent or was strictly improved (%d comparison(s))" % found
+
+
+def _iterates(b, o, pred, depth=0):
+    """operand o is an iterator over (a chain of lazy adapters over) a collection whose roots all satisfy pred"""
+    rs = prov(b, o)
+    if not rs or depth > 6:
+        return False
+    for r in rs:
+        if pred(r):
+            continue
+        if r.kind == "call" and r.site is not None and b.term(r.site)["args"]:
+            last = str(r.name).rsplit("::", 1)[-1].split("<")[0]
+            if last in ("iter", "iter_mut", "into_iter", "map", "copied", "cloned", "rev", "by_ref", "as_slice", "deref", "filter", "inspect") \
+                    and _iterates(b, b.term(r.site)["args"][0], pred, depth + 1):
+                continue
+        return False
+    return True
 
 
 def sup_load_impl_recursion(P):
@@ -404,7 +499,24 @@ def sup_load_impl_recursion(P):
     path, the path is pushed before the recursion, and the same vector is passed down"""
     key = "okane_core::load::Loader::load_impl"
     b = P.body(key)
-    rec = [(bb, t) for bb, t in b.calls() if key in callee_names(t)]
+
+    def is_anc(r):
+        return q.is_param(r, "ancestors") or (r.kind == "capture" and r.name == "ancestors")
+    # recursive calls in the function itself or in a closure it hands to an iterator consumer (try_for_each ...);
+    # for a closure, the guards are those in force where the closure is built
+    rec = [(b, bb, t, bb) for bb, t in b.calls() if key in callee_names(t)]
+    for cb in P.closures_of(key):
+        for bb, t in cb.calls():
+            if key in callee_names(t):
+                site = None
+                for i, blk in enumerate(b.blocks):
+                    for st in blk["stmts"]:
+                        if st["k"] == "assign" and st["rv"]["k"] == "aggregate" and st["rv"].get("agg") == "closure" \
+                                and norm(st["rv"].get("closure")) == cb.key:
+                            site = i
+                if site is None:
+                    return False, "recursive call in %s, whose construction site is not in load_impl" % cb.key
+                rec.append((cb, bb, t, site))
     if not rec:
         return False, "no recursive call found"
     # index of the `ancestors` parameter
@@ -418,9 +530,9 @@ def sup_load_impl_recursion(P):
               if q.all_roots(b, t["args"][0], lambda r: q.is_param(r, "ancestors"))]
     if not pushes:
         return False, "current path is never pushed to ancestors"
-    for bb, t in rec:
+    for rb, rbb, t, bb in rec:
         passed = t["args"][anc - 1]
-        if not q.all_roots(b, passed, lambda r: q.is_param(r, "ancestors")):
+        if not q.all_roots(rb, passed, is_anc):
             return False, "recursive call does not pass `ancestors` down"
         if not any(b.must_pass_block(bb, p) for p in pushes):
             return False, "recursive call not dominated by ancestors.push(current)"
@@ -428,10 +540,8 @@ def sup_load_impl_recursion(P):
         for cn, lab, ct in q.guard_calls(b, bb):
             if callee_def(ct) in ("std::iter::Iterator::any",) and lab is False:
                 # the receiver iterates `ancestors`
-                for r in prov(b, ct["args"][0]):
-                    if r.kind == "call" and r.site is not None and \
-                            q.all_roots(b, b.term(r.site)["args"][0], lambda r2: q.is_param(r2, "ancestors")):
-                        ok = True
+                if _iterates(b, ct["args"][0], lambda r2: q.is_param(r2, "ancestors")):
+                    ok = True
             if callee_def(ct) in ("core::slice::contains", "std::collections::HashSet::contains",
                                   "std::collections::BTreeSet::contains") and lab is False:
                 if q.all_roots(b, ct["args"][0], lambda r: q.is_param(r, "ancestors")):
@@ -442,7 +552,7 @@ def sup_load_impl_recursion(P):
         if not ok:
             return False, "recursive call not guarded by an absent-membership test on ancestors"
     # the root call starts with a fresh collection
-    outer = [c for c in q.callers_of(P, key) if c[0].key != key and q.not_test(c[0])]
+    outer = [c for c in q.callers_of(P, key) if c[0].key.split("::{closure")[0] != key and q.not_test(c[0])]
     for ob, obb, ot in outer:
         a = ot["args"][anc - 1]
         if not q.all_roots(ob, a, lambda r: r.kind == "call" and r.name in ("std::vec::Vec::new", "std::collections::HashSet::new")):
